@@ -336,7 +336,15 @@ def opener_shape(f):
     for n in walk_own(f.node):
         if isinstance(n, ast.If) and "is_file_gzipped" in norm(n.test):
             t, pol = canon_test(n.test, True)
-            gz, plain = (n.body, n.orelse) if pol else (n.orelse, n.body)
+            then, other = n.body, n.orelse
+            if not other and then and isinstance(then[-1], (ast.Return, ast.Raise, ast.Continue, ast.Break)):
+                # early-exit form: the other branch is what follows the If in its statement list
+                for nd in ast.walk(f.node):
+                    for fld in ("body", "orelse", "finalbody"):
+                        lst = getattr(nd, fld, None)
+                        if isinstance(lst, list) and any(x is n for x in lst):
+                            other = lst[lst.index(n) + 1 :]
+            gz, plain = (then, other) if pol else (other, then)
             a = [st for st in gz if isinstance(st, ast.Assign) and isinstance(st.value, ast.Call)]
             b = [st for st in plain if isinstance(st, ast.Assign) and isinstance(st.value, ast.Call)]
             if a and b:
